@@ -114,7 +114,7 @@ def floors(tier):
         "psd-checked": 1500 if q else 200000,
         "row-sums-checked": 1500 if q else 200000,
         "degenerate:no-edge-of-order": 1000,
-        "shape:no-nodes": 5, "shape:nodes-only": 5, "shape:uniform": 20, "shape:isolated-nodes": 40, "shape:multi-edges": 40, "shape:singletons": 40,
+        "shape:no-nodes": 5, "shape:nodes-only": 5, "shape:uniform": 20, "shape:isolated-nodes": 25, "shape:multi-edges": 40, "shape:singletons": 40,
         "normalized:weighted=True,unit-weights": 30, "normalized:weighted=True,non-unit-weights": 30, "normalized:weighted=False": 60,
         "normalized:rejected-isolates": 20,
         "adjacency:s>1-and-count>=s": 30,
@@ -981,6 +981,7 @@ class Scale:
         self.orders = sorted({len(m) - 1 for m in self.mem.values()})
         self._C = {}
         self.failed = False
+        self.nf = {}  # failures per function since its last sparse/dense comparison (a failed member is not compared again)
 
     def of(self, order):
         return [e for e in self.eids if order is None or len(self.mem[e]) - 1 == order]
@@ -1022,6 +1023,7 @@ class Scale:
     # -- plumbing ------------------------------------------------------------------
     def fire(self, fn, trig, clause, call, text):
         self.failed = True
+        self.nf[fn] = self.nf.get(fn, 0) + 1
         self.mon.fail(f"{fn}|scale,{trig}|{clause}", f"{call}: {short(text, 400)}", f"{call}\non a hypergraph built as: {self.desc}")
 
     def perm(self, d, targets, index):
@@ -1043,6 +1045,8 @@ class Scale:
         return False
 
     def pair(self, fn, trig, call, res):
+        if self.nf.pop(fn, 0):
+            return
         self.mon.ev()
         self.mon.note("sparse==dense")
         a, b = dense(res[True][0]), dense(res[False][0])
